@@ -321,6 +321,7 @@ func checkC02(c *Ctx) {
 
 	c02SameType(c)
 	c02ErrCarry(c)
+	c02AnyMembers(c)
 	c01FreshBuffer(c) // a message handed to a caller must not share its buffer with the next one read
 
 	// ---- R-unbounded-frames: the reader that returns a call's answer must not impose a line-length limit
@@ -600,4 +601,39 @@ func staticClosure(c *Ctx, fn *ssa.Function, depth int) []*ssa.Function {
 		frontier = next
 	}
 	return out
+}
+
+// ---------------------------------------------------------------- R-any-member
+// A member declared interface{} in a result type can carry any JSON value (object, array, string, number, bool). A
+// hand-written decoder must hand it on as decoded; storing a value narrowed to one concrete Go type (the boxed result of
+// a type assertion or of a helper returning map[string]interface{}) silently drops every other shape.
+func c02AnyMembers(c *Ctx) {
+	n := 0
+	for _, fn := range c.P.LibFns {
+		if !clientSide(c, fn) {
+			continue
+		}
+		ir.EachInstr(fn, func(_ *ssa.BasicBlock, _ int, in ssa.Instruction) {
+			st, ok := in.(*ssa.Store)
+			if !ok {
+				return
+			}
+			f, _, ok := ir.FieldOf(st.Addr)
+			if !ok || f.Struct == nil || f.Struct.Obj().Pkg() == nil || f.Struct.Obj().Pkg().Path() != ir.RootPath || !strings.HasSuffix(f.Struct.Obj().Name(), "Result") {
+				return
+			}
+			it, isIface := f.Type.Underlying().(*types.Interface)
+			if !isIface || it.NumMethods() != 0 {
+				return
+			}
+			n++
+			narrowed := ""
+			if mi, ok := st.Val.(*ssa.MakeInterface); ok {
+				narrowed = ir.TypeStr(mi.X.Type())
+			}
+			c.R.Check(narrowed == "", "R-any-member", f.Key()+" in "+fname(fn), c.Pos(st.Pos()), "the decoded value is stored as it was decoded (any JSON shape)",
+				sprintf("%s stores %s after narrowing it to %s: a handler that returned an array, a string, a number or a bool there is silently answered with nothing", fname(fn), f.Key(), narrowed))
+		})
+	}
+	c.R.Min("R-any-member", 1)
 }
